@@ -30,9 +30,9 @@
     the reference option lists up to order; Proofs/CrossLoad.)
 
   * `schema_on_reference_engine` — **the executable predicate `Spec.c03` itself, both clauses**: in the scope of the two
-    whole-schema theorems `C01.schema_on_reference_engine` and `C02.schema_on_reference_engine` (no foreign keys, inline
+    whole-schema theorems `C01.schema_on_reference_engine` and `C02.schema_on_reference_engine` (no inline
     PRIMARY KEY; common tables order-compatible with the same primary key, outside the recorded
-    region), `modelUp` and `modelDown` return and `c03 dbOld dbNew up down = .ok ()`: if the two reference schemas are
+    regions), `modelUp` and `modelDown` return and `c03 dbOld dbNew up down = .ok ()`: if the two reference schemas are
     `DB.equiv` both migrations are empty (`dbEquiv_of_equiv` feeds `equal_schemas_from_scripts`), and otherwise no
     statement of either migration targets a table that is `TableSpec.equiv` on the two sides — because every printed
     statement is justified by a difference (C01 / C02) and a statement about an equivalent table never is
@@ -224,15 +224,15 @@ theorem schema_on_reference_engine (g : Globals) (hg : g.dialect = .mysql) (hio 
     (hpo : old.all Stmt.plainOpts = true) (hpn : new.all Stmt.plainOpts = true)
     (heo : execAll rc [] old = some dbO) (hen : execAll rc [] new = some dbN)
     (hdef : ∀ tb ∈ dbO ++ dbN, tb.name ≠ Migration.defaultMigrationTable)
-    (hnofk : ∀ tb ∈ dbO ++ dbN, tb.fks = [])
     (hboth : ∀ tbO ∈ dbO, ∀ tbN ∈ dbN, tbO.name = tbN.name →
       Abs.OrderCompatible tbN.colNames tbO.colNames ∧ (∀ n ∈ tbN.colNames ++ tbO.colNames, n ≠ "") ∧ tbO.pk = tbN.pk ∧
       (∀ dc : List String, (∀ c ∈ dc, c ∉ tbN.colNames) →
         ∀ s ∈ tbN.idxs, ∀ o ∈ tbO.idxs, o.name = s.name → o ≠ s → ∃ c ∈ o.cols, c ∉ dc) ∧
       (∀ dc : List String, (∀ c ∈ dc, c ∉ tbO.colNames) →
-        ∀ s ∈ tbN.idxs, ∀ o ∈ tbO.idxs, o.name = s.name → o ≠ s → ∃ c ∈ s.cols, c ∉ dc)) :
+        ∀ s ∈ tbN.idxs, ∀ o ∈ tbO.idxs, o.name = s.name → o ≠ s → ∃ c ∈ s.cols, c ∉ dc) ∧
+      (∀ s ∈ tbN.fks, ∀ o ∈ tbO.fks, s.name = o.name → s = o)) :
     ∃ up down, modelUp g old new = .ok up ∧ modelDown g old new = .ok down ∧ c03 dbO dbN up down = .ok () :=
-  schema_c03 g hg hio rc old new dbO dbN ho hn hpo hpn heo hen hdef hnofk hboth
+  schema_c03 g hg hio rc old new dbO dbN ho hn hpo hpn heo hen hdef hboth
 
 /-- the reference-engine lemma behind the second clause: a statement about a table that is equivalent on both sides is
     not justified by any difference -/
@@ -254,14 +254,14 @@ theorem schema_on_reference_engine_either_setting (g : Globals) (hg : g.dialect 
     (hpo : old.all Stmt.plainOpts = true) (hpn : new.all Stmt.plainOpts = true)
     (heo : execAll rc [] old = some dbO) (hen : execAll rc [] new = some dbN)
     (hdef : ∀ tb ∈ dbO ++ dbN, tb.name ≠ Migration.defaultMigrationTable)
-    (hnofk : ∀ tb ∈ dbO ++ dbN, tb.fks = [])
     (hboth : ∀ tbO ∈ dbO, ∀ tbN ∈ dbN, tbO.name = tbN.name →
       Abs.OrderCompatible tbN.colNames tbO.colNames ∧ (∀ n ∈ tbN.colNames ++ tbO.colNames, n ≠ "") ∧ tbO.pk = tbN.pk ∧
       (∀ dc : List String, (∀ c ∈ dc, c ∉ tbN.colNames) →
         ∀ s ∈ tbN.idxs, ∀ o ∈ tbO.idxs, o.name = s.name → o ≠ s → ∃ c ∈ o.cols, c ∉ dc) ∧
       (∀ dc : List String, (∀ c ∈ dc, c ∉ tbO.colNames) →
-        ∀ s ∈ tbN.idxs, ∀ o ∈ tbO.idxs, o.name = s.name → o ≠ s → ∃ c ∈ s.cols, c ∉ dc)) :
+        ∀ s ∈ tbN.idxs, ∀ o ∈ tbO.idxs, o.name = s.name → o ≠ s → ∃ c ∈ s.cols, c ∉ dc) ∧
+      (∀ s ∈ tbN.fks, ∀ o ∈ tbO.fks, s.name = o.name → s = o)) :
     ∃ up down, modelUp g old new = .ok up ∧ modelDown g old new = .ok down ∧ c03 dbO dbN up down = .ok () :=
-  schema_c03_any g hg rc old new dbO dbN ho hn hpo hpn heo hen hdef hnofk hboth
+  schema_c03_any g hg rc old new dbO dbN ho hn hpo hpn heo hen hdef hboth
 
 end Sqlize.C03
